@@ -913,10 +913,15 @@ impl<'a> Norm<'a> {
             Expr::Try(t) => { self.chainbind_spine(&mut t.expr, out); return; }
             Expr::Paren(p) => { self.chainbind_spine(&mut p.expr, out); return; }
             Expr::Field(f) => { self.chainbind_spine(&mut f.base, out); return; }
+            Expr::Call(_) => {}
             _ => return,
         }
-        let Expr::MethodCall(mc) = e else { return };
-        let nm = mc.method.to_string();
+        // a method call on the spine, or the free-function call at the head of the spine (keyed by its last path segment)
+        let nm = match e {
+            Expr::MethodCall(mc) => mc.method.to_string(),
+            Expr::Call(c) => match &*c.func { Expr::Path(p) => match p.path.segments.last() { Some(s) => s.ident.to_string(), None => return }, _ => return },
+            _ => return,
+        };
         let k = { let k = self.chain_no.entry(nm.clone()).or_default(); *k += 1; *k };
         let key = format!("{}#{}", nm, k);
         if let Some((_, is_mut, name)) = self.spec.chainbind.iter().find(|(m, _, _)| m == &key).cloned() {
